@@ -406,8 +406,8 @@ func (e *SpecEnv) evalRaw(x ast.Expr) *SV {
 		if b.V != nil {
 			if mt, ok := b.V.T.Underlying().(*types.Map); ok {
 				has, v := e.g.mapRead(e.stateOf(b), b.V.L[0], mt, i.V.L[0])
-				_ = has
-				return &SV{V: v, St: e.stateOf(b)}
+				// Go semantics: a missing key reads as the zero value
+				return &SV{V: iteVal(has, v, zeroVal(mt.Elem())), St: e.stateOf(b)}
 			}
 		}
 		if b.V != nil && b.Seq == nil && isSlice(b.V.T) && isStructT(b.V.T.Underlying().(*types.Slice).Elem()) {
